@@ -11,12 +11,13 @@ import (
 func init() { registry["C12"] = checkC12 }
 
 func checkC12(c *Ctx, r *Report) {
-	r.Explain = "Decides structural necessary conditions of authentication: (R1) every exit of the password and session authenticators that yields a user is dominated by the credential check (password verified / session epoch equals the user's current epoch), a user-exists check and a disabled-account check; (R2) a one-time session yields a user only on the success edge of its deletion, every failure of that deletion (not-found included) is an error, and the cookie TTL refresh is skipped for one-time sessions; (R3) every store to the password hash is paired with a session-epoch bump on every path, and the bcrypt-cost rehash inside the CAS callback is decided on the callback's own freshly loaded hash; (R4) the verified-password cache is filled only on the success edge of the full bcrypt comparison, under a key that depends on both hash and password, by a single writer; (R5) the request handler's user is set only from an authenticator result (or the table-listed re-fetches), after being reset first. Not decided: histories (delete and re-create), bcrypt itself, OIDC/JWT validation."
+	r.Explain = "Decides structural necessary conditions of authentication: (R1) every exit of the password and session authenticators that yields a user is dominated by the credential check (password verified / session epoch equals the user's current epoch), a user-exists check and a disabled-account check; (R2) a one-time session yields a user only on the success edge of its deletion, every failure of that deletion (not-found included) is an error, and the cookie TTL refresh is skipped for one-time sessions; (R3) every store to the password hash is paired with a session-epoch bump on every path, and the bcrypt-cost rehash inside the CAS callback is decided on the callback's own freshly loaded hash; (R4) the verified-password cache is filled only on the success edge of the full bcrypt comparison, under a key that depends on both hash and password, by a single writer; (R5) the request handler's user is set only from an authenticator result (or the table-listed re-fetches), after being reset first; (R6) only CreateSession writes a session document unconditionally — a refresh of an existing session cannot re-create one that was deleted in the meantime. Not decided: histories (delete and re-create), bcrypt itself, OIDC/JWT validation."
 	c12R1(c, r)
 	c12R2(c, r)
 	c12R3(c, r)
 	c12R4(c, r)
 	c12R5(c, r)
+	c12R6(c, r)
 }
 
 // userYieldingReturns: returns whose result idx is not the nil constant.
@@ -510,4 +511,87 @@ func c12R5(c *Ctx, r *Report) {
 	}
 	// setUserForPublicAuth: nil-error returns after an authenticator call are on that call's success edge or with h.user checked non-nil
 	_ = types.Typ
+}
+
+// C12-R6: a session exists only from its creation to its deletion/expiry. Only CreateSession may write a session document
+// unconditionally; every other write to a session key must be unable to re-create a session that was deleted since it was read.
+func c12R6(c *Ctx, r *Report) {
+	r.Rule("C12-R6", "E3 whomay + E2 pathrules", "session documents are created only by CreateSession; any other write to a session key is conditional on the document still existing (Update whose callback cancels when there is no current value, Touch, or a CAS write carrying a previously read CAS)", 5)
+	n := 0
+	for _, fn := range c.ScopeFuncs() {
+		if fn.Pkg == nil || fn.Pkg.Pkg.Name() != "auth" {
+			continue
+		}
+		for _, call := range c.Calls(fn, false, func(string) bool { return true }) {
+			cc := call.Common()
+			if !cc.IsInvoke() {
+				continue
+			}
+			args := cc.Args
+			if len(args) < 2 || !DependsOn(args[1], c.ResultOf(0, nameHasSuffix(".DocIDForSession"))) {
+				continue
+			}
+			n++
+			op := cc.Method.Name()
+			top := c.FuncName(TopLevel(fn))
+			construct := fmt.Sprintf("fn=%s session-doc op=%s #%d", top, op, n)
+			switch op {
+			case "Get", "GetRaw", "Delete", "Remove", "Touch", "GetAndTouchRaw", "Exists":
+				r.Pass("C12-R6", fmt.Sprintf("fn=%s session-doc op=%s", top, op), c.Pos(call.Pos()), "read, delete or expiry touch: cannot create a session")
+			case "Set", "SetRaw", "Add", "AddRaw":
+				ok := top == "(*auth.Authenticator).CreateSession"
+				r.Check("C12-R6", fmt.Sprintf("fn=%s session-doc op=%s unconditional-write only-in=CreateSession", top, op), c.Pos(call.Pos()), ok, "session creation", "a session document is written unconditionally outside CreateSession: if the session was deleted (logout, admin revocation, one-time use) after it was read, this write re-creates it and the revoked session authenticates again")
+			case "WriteCas":
+				k, isK := constInt(args[len(args)-3])
+				_ = k
+				r.Check("C12-R6", construct+" cas=previously-read", c.Pos(call.Pos()), !isK, "CAS-conditional write", "a session document is written with a constant CAS")
+			case "Update":
+				// callback: on the no-current-value edge it must fail/cancel
+				ok := false
+				var lit *ssa.Function
+				switch cb := unwrap(args[len(args)-1]).(type) {
+				case *ssa.MakeClosure:
+					lit, _ = cb.Fn.(*ssa.Function)
+				case *ssa.Function:
+					lit = cb
+				}
+				if lit != nil && len(lit.Params) > 0 {
+					cur := lit.Params[0]
+					absent := EdgesWhere(lit, func(cond ssa.Value) (bool, bool) {
+						if x, trueMeansNil, isNil := NilTest(cond); isNil && x == ssa.Value(cur) {
+							return true, trueMeansNil
+						}
+						// len(current) == 0
+						if b, isB := cond.(*ssa.BinOp); isB {
+							if l, isCall := b.X.(*ssa.Call); isCall {
+								if bi, isBuiltin := l.Call.Value.(*ssa.Builtin); isBuiltin && bi.Name() == "len" && l.Call.Args[0] == ssa.Value(cur) {
+									if k, isK := constInt(b.Y); isK && k == 0 {
+										switch b.Op {
+										case token.EQL:
+											return true, true
+										case token.NEQ, token.GTR:
+											return true, false
+										}
+									}
+								}
+							}
+						}
+						return false, false
+					})
+					ok = len(absent) > 0
+					for _, e := range absent {
+						if ReachFrom(e.To(), 0, func(in ssa.Instruction) bool {
+							ret, isRet := in.(*ssa.Return)
+							return isRet && isNilConst(unwrapLoadFree(ret.Results[len(ret.Results)-1]))
+						}, nil) != nil {
+							ok = false
+						}
+					}
+				}
+				r.Check("C12-R6", fmt.Sprintf("fn=%s session-doc op=Update cancels-when=no-current-value", top), c.Pos(call.Pos()), ok, "the refresh cannot re-create a deleted session", "the update callback does not fail when the session document no longer exists: a deleted session is re-created by the refresh")
+			default:
+				r.Fail("C12-R6", construct+" unknown-operation", c.Pos(call.Pos()), "unrecognised storage operation on a session key (undecided, treated as failure)")
+			}
+		}
+	}
 }
